@@ -359,14 +359,20 @@ def render_one(prog: list[dict], form: str = "comp") -> str:
 def judge(check: core.Check, progs: list[dict], label: str, mode: str = "value", need_use: bool = True) -> None:
     if need_use:
         progs = [p for p in progs if _has_use(p["prog"])]
+    import time
+
+    t0 = time.time()
     batches = [(i, progs[i : i + 150], mode) for i in range(0, len(progs), 150)]
     parts = core.pmap(observe_batch, batches, chunk=1)
     obs = [o for part in parts for o in part]
+    t1 = time.time()
     # one JVM start costs more than judging a few hundred observations: at most 14 batches, run side by side
     batch = min(2500, max(150, -(-len(obs) // 14)))
     verdicts, stats = core.adjudicate("ScopesTrace", "ScopesTrace.cfg", obs, batch=batch, parallel=14, timeout=1500)
     check.add_trace_stats(stats)
     check.evals(len(obs))
+    check.cov.setdefault("phase_s", {})[label] = {"observations": len(obs), "real_code_s": round(t1 - t0, 1),
+                                                  "tlc_judging_s": round(time.time() - t1, 1)}
     by_tid = {o["tid"]: o for o in obs}
     for tid, vs in verdicts.items():
         o = by_tid[tid]
